@@ -136,7 +136,7 @@ Proof.
     apply with_attr_ok in H. destruct H as (a & _ & H). inversion H; subst. cbn. apply NoDup_remove. exact Hnd.
   - (* putcopy *) unfold do_putcopy in H. apply with_attr_ok in H. destruct H as (a & _ & H).
     apply with_attr_ok in H. destruct H as (ra & _ & H).
-    destruct (a_par ra) as [p|].
+    cbv zeta in H. destruct (match a_par ra with Some p => if (p =? s)%N then None else Some p | None => None end) as [p|].
     + apply with_attr_ok in H. destruct H as (pa & _ & H). inversion H; subst. exact Hnd.
     + inversion H; subst. exact Hnd.
   - (* tempcopy *) unfold do_tempcopy in H. destruct (aget (st_attr st) nw); [discriminate|].
@@ -329,9 +329,10 @@ Proof.
     apply ranges_upd; [exact Hr|]. destruct Hr as [_ Hr]. exact (Hr s a Ea).
   - unfold do_putcopy in H. apply with_attr_ok in H. destruct H as (a & Ea & H).
     apply with_attr_ok in H. destruct H as (ra & Era & H).
-    assert (H1 : ranges_ok (upd_attr st s (mkattr (a_before ra) (a_after ra) (a_orig ra) (a_index ra) (a_par ra) [] false false))).
+    cbv zeta in H. set (par := match a_par ra with Some p => if (p =? s)%N then None else Some p | None => None end) in H. clearbody par.
+    assert (H1 : ranges_ok (upd_attr st s (mkattr (a_before ra) (a_after ra) (a_orig ra) (a_index ra) par [] false false))).
     { apply ranges_upd; [exact Hr|]. destruct Hr as [_ Hr]. exact (Hr ref ra Era). }
-    destruct (a_par ra) as [p|].
+    destruct par as [p|].
     + apply with_attr_ok in H. destruct H as (pa & Epa & H). inversion H; subst. split; [|reflexivity].
       apply ranges_upd; [exact H1|]. destruct H1 as [_ H1]. exact (H1 p pa Epa).
     + inversion H; subst. split; [exact H1|reflexivity].
